@@ -87,6 +87,9 @@ def _replay(job, phase):
     sw = m.dvar()           # decision of the late row s*w <= 1 (w: a random variable declared late)
     m.st(sw >= 0, sw <= 10)
     w_late = None
+    y_used = m.ldr()        # decision rules for the cross-model adaptation misuses (unused in constraints)
+    y_used.adapt(z[0])
+    y_fresh = m.ldr(2)
     user_a = {k: A[k].copy() for k in A}
     user_a_bytes = {k: user_a[k].tobytes() for k in user_a}
     cons = {k: (t[k - 1] >= user_a[k] @ z) for k in range(1, K + 1)}
@@ -170,6 +173,10 @@ def _replay(job, phase):
                     m.minmax(t[0] + 0, rso.norm(z2, 1) <= 1)
                 elif w == 'get_unsolved':
                     m.get()
+                elif w == 'ldr_adapt_foreign_fresh':
+                    y_fresh.adapt(z2[1])
+                elif w == 'ldr_adapt_foreign_used':
+                    (y_used.adapt(z2[1]) if si % 2 else y_fresh[0].adapt(z[1]) or y_fresh[1].adapt(z2[0]))
                 elif w == 'obj_nonscalar':
                     m.min(rso.vec(t[0], t[0]) if K == 1 else t)
                 else:
